@@ -167,14 +167,15 @@ def run(ctx):
               f_new.loc(), 'the display filter is consulted with the arriving message')
 
     # ---- C06.3 single route to Message.show ------------------------------------------------------------------------
+    from .common import effective_funcs as _eff6
     callers = cg.callers_of(f_mshow)
     for f, s in callers:
-        ctx.check(f is f_show, 'C06.3', 'show:caller:%s' % f.qual, f.loc(s.node), 'Message.show is called only by Controller._show_message',
+        ctx.check(all(g is f_show for g in _eff6(repo, f)), 'C06.3', 'show:caller:%s' % f.qual, f.loc(s.node), 'Message.show is called only by Controller._show_message',
                   'Message.show is also called from %s (a second display route)' % f.short)
     ctx.floor('C06.3', len(callers), 1, 'caller of Message.show')
     callers = cg.callers_of(f_show)
     for f, s in callers:
-        ctx.check(f.short in ('Controller.connection_got_new_message', 'Controller.show_messages'), 'C06.3', 'show_message:caller:%s' % f.qual, f.loc(s.node),
+        ctx.check(all(g.short in ('Controller.connection_got_new_message', 'Controller.show_messages') for g in _eff6(repo, f)), 'C06.3', 'show_message:caller:%s' % f.qual, f.loc(s.node),
                   '_show_message is called by the live view and by listings only', '_show_message is also called from %s' % f.short)
     ctx.floor('C06.3', len(callers), 1, 'callers of _show_message')
     for p in paths_of(repo, f_show):
